@@ -1048,12 +1048,15 @@ pub(super) fn poll_recv(
         let local = bound_endpoint(st);
         let tcb = st.tcb.as_mut().unwrap();
         let n = tcb.recv_buf.len().min(buf.len());
+        // A closed (zero) window must be re-opened by the first read that frees
+        // space, whatever its size: the sender has no zero-window probe.
+        let was_closed = advertised_window(recv_cap, tcb.recv_buf.len()) == 0;
         let drained = tcb.recv_buf.split_to(n);
         buf[..n].copy_from_slice(&drained);
         // Window-update trigger: if we freed ≥ half the recv cap,
         // advertise. Crude SWS avoidance; refine alongside real flow
         // control.
-        let should_update = n >= recv_cap / 2;
+        let should_update = n >= recv_cap / 2 || (was_closed && n > 0);
         (n, should_update, local, peer)
     };
 
